@@ -267,6 +267,54 @@ class StepBudget:
         return n
 
 
+class LineReach(StepBudget):
+    """Which library lines the workload of a check executed at least once (sys.monitoring LINE events on the
+    library's code objects under a tool id of its own; every location disables itself after its first event, so
+    the cost is one callback per distinct line).  Evidence of reach only - never a verdict."""
+    TOOL = 1    # sys.monitoring.COVERAGE_ID
+
+    def __init__(self, L):
+        StepBudget.__init__(self, L, 0)
+        self.hit = set()
+        self.executable = set()
+
+    def install(self):
+        mon = sys.monitoring
+        try:
+            mon.use_tool_id(self.TOOL, 'vf-line-reach')
+        except ValueError:
+            return 0
+        mon.register_callback(self.TOOL, mon.events.LINE, self._line)
+        n = 0
+        for co in self._codes():
+            f = os.path.basename(co.co_filename)
+            first = co.co_firstlineno
+            for _, _, ln in co.co_lines():
+                # (the `def` line itself belongs to the enclosing scope, executed at import)
+                if ln is not None and ln != first:
+                    self.executable.add((f, ln))
+            mon.set_local_events(self.TOOL, co, mon.events.LINE)
+            n += 1
+        self.installed = True
+        return n
+
+    def _line(self, code, line):
+        self.hit.add((os.path.basename(code.co_filename), line))
+        return sys.monitoring.DISABLE
+
+    def dump(self):
+        files = {}
+        for f, ln in self.executable:
+            files.setdefault(f, {'executable': [], 'hit': []})['executable'].append(ln)
+        for f, ln in self.hit:
+            if (f, ln) in self.executable:
+                files[f]['hit'].append(ln)
+        for d in files.values():
+            d['executable'].sort()
+            d['hit'].sort()
+        return files
+
+
 class Monitor:
     def __init__(self, ctx, contracts=(), step_budget=None, budget_judged=True):
         self.budget_judged = budget_judged
